@@ -25,3 +25,54 @@ pub proof fn lemma_rt_data_source(text: Seq<char>, id: usize, tail: Seq<u8>)
     lemma_rt_str(b, enc_uint(id as u64) + tail);
     lemma_rt_uint(id as u64, tail);
 }
+
+// serves: C05
+/// Round trip of the text payload shared by Data::String, Data::Error, Data::Integer and Data::Double (the numbers are
+/// written as their decimal text): the payload decodes to the same bytes with nothing left over.  With
+/// read_data_value_payload.text_payload / number_payload (and the assumed inverse of to_string/parse for numbers) this is
+/// `read(write(v)) == v` for these variants.
+pub proof fn lemma_rt_data_text(text: Seq<char>, tail: Seq<u8>)
+    requires
+        str_encodable(encode_utf8(text)),
+    ensures
+        ({
+            let b = encode_utf8(text);
+            let rest = enc_str(b) + tail;
+            &&& !unknown_head(rest)
+            &&& str_token(rest) == Some((b, enc_str(b).len() as int))
+            &&& skip(rest, enc_str(b).len() as int) == tail
+        }),
+{
+    let b = encode_utf8(text);
+    vstd::utf8::encode_utf8_valid_utf8(text);
+    lemma_rt_str(b, tail);
+}
+
+// serves: C05
+/// Round trip of the Boolean payload: one tag byte that read_boolean (and read_data_value_payload.boolean_payload)
+/// maps back to the same value.
+pub proof fn lemma_rt_data_bool(v: bool, tail: Seq<u8>)
+    ensures
+        ({
+            let rest = enc_bool(v) + tail;
+            &&& rest.len() >= 1
+            &&& (rest[0] == 0x1F || rest[0] == 0x10)
+            &&& (rest[0] == 0x1F) == v
+            &&& skip(rest, 1) == tail
+        }),
+{
+    lemma_rt_tags(tail);
+    assert(skip(enc_bool(v) + tail, 1) =~= tail);
+}
+
+// serves: C05
+/// The tag byte of a value decodes to the tag (read_data reads it with read_u8 before the payload).
+pub proof fn lemma_rt_data_tag(d: Data, tail: Seq<u8>)
+    ensures
+        num_token(enc_uint(data_tag(d)) + tail).is_some(),
+        num_token(enc_uint(data_tag(d)) + tail).unwrap().0 == data_tag(d),
+        data_tag(d) <= 9,
+        skip(enc_uint(data_tag(d)) + tail, num_token(enc_uint(data_tag(d)) + tail).unwrap().1) == tail,
+{
+    lemma_rt_uint(data_tag(d), tail);
+}
